@@ -1,23 +1,29 @@
 #!/usr/bin/env python3
 """Copies confirmed seeded changes from /tmp/seedwork into /verif/seeded/<id>-<n>/ and prints the catch matrix."""
 import json, os, shutil, glob, re
+import sys
 S='/tmp/seedwork'; D='/verif/seeded'
+ROUND=sys.argv[1] if len(sys.argv)>1 else '1'
+RES='results' if ROUND=='1' else 'results2'
+OUTP='out-' if ROUND=='1' else 'out2-'
+PFX='' if ROUND=='1' else 'r2-'
+EXTRA=json.load(open(f'{S}/extra{ROUND}.json')) if os.path.exists(f'{S}/extra{ROUND}.json') else {}
 rows=[]
-for rf in sorted(glob.glob(f'{S}/results/C*-*.json')):
+for rf in sorted(glob.glob(f'{S}/{RES}/C*-*.json')):
     r=json.load(open(rf))
     sid=r['seed']; pid,n=sid.split('-')
-    out=f'{S}/out-{pid}'
+    out=f'{S}/{OUTP}{pid}'
     if not r.get('confirmed'):
         rows.append((sid,'not confirmed (dropped)','','')); continue
-    dst=f'{D}/{sid}'; os.makedirs(dst,exist_ok=True)
+    dst=f'{D}/{PFX}{sid}'; os.makedirs(dst,exist_ok=True)
     shutil.copy(f'{out}/patch{n}.diff',f'{dst}/patch.diff')
     shutil.copy(f'{out}/demo{n}.rs',f'{dst}/demo.rs')
     try: meta=json.load(open(f'{out}/meta{n}.json'))
     except Exception as e: meta={'property':pid,'summary':'(meta file of the sub-agent did not parse)'}
-    log=open(f'{S}/results/{sid}.log').read() if os.path.exists(f'{S}/results/{sid}.log') else ''
+    log=open(f'{S}/{RES}/{sid}.log').read() if os.path.exists(f'{S}/{RES}/{sid}.log') else ''
     conf=[l for l in log.splitlines() if l.startswith(('suite with patch','demo with patch','demo without patch','SEED-'))]
     prev=json.load(open(f'{dst}/meta.json')) if os.path.exists(f'{dst}/meta.json') else {}
-    caught=sorted(set(r.get('caught_by',[]))|set(prev.get('checks_run',{}).get('caught_by',[])) - set())
+    caught=sorted(set(r.get('caught_by',[]))|set(prev.get('checks_run',{}).get('caught_by',[]))|set(EXTRA.get(sid,{}).get('caught_by',[])))
     missed=sorted(set(r.get('not_caught_by',[]))-set(caught))
     meta_out={
       'property':pid,'seed':sid,
@@ -25,9 +31,9 @@ for rf in sorted(glob.glob(f'{S}/results/C*-*.json')):
       'sub_agent_verification':meta.get('verified'),
       'my_confirmation':{'how':'tools/verify_seed.sh in the scratch worktree: full suite with the patch, demo with the patch, demo without the patch','output':conf},
       'checks_run':{'how':'quick tier of the listed checks against a scratch copy with the patch applied (tools/seed_eval.sh); spot-checked on /repo itself with tools/run_seed.sh','caught_by':caught,'not_caught_by':missed},
-      'extra':prev.get('extra',{}),
+      'extra':EXTRA.get(sid,prev.get('extra',{})),
     }
     json.dump(meta_out,open(f'{dst}/meta.json','w'),indent=1)
-    rows.append((sid,(meta.get('summary') or '')[:110],' '.join(caught),' '.join(missed)))
+    rows.append((PFX+sid,(meta.get('summary') or '')[:110],' '.join(caught),' '.join(missed)))
 print('| seed | change | caught by (quick) | run but silent |\n|---|---|---|---|')
 for r in rows: print('| '+' | '.join(r)+' |')
